@@ -22,7 +22,7 @@ ASSUMPTIONS = ['stand-alone component = same class, freshly defined, called alon
                'tolerance 1e-12 of max|entry| (sums are re-associated)']
 PTYPES = {'A': dict(m=3, n=3, b=0.3, lam='cross_sym'), 'B': dict(m=4, n=3, b=0.2, lam='general'), 'C': dict(m=2, n=5, b=0.45, lam='angle')}
 CUTS = [0.2, 0.35, 0.5, 0.8]
-STIFFS = ['b1d_bf', 'b1d_f', 'b1d_b', 'b2d_bf', 'b2d_f', 't2d']
+STIFFS = ['b1d_bf', 'b1d_f', 'b1d_b', 'b2d_bf', 'b2d_f', 't2d', 't2d_s']
 TOL = 1e-12
 
 
@@ -39,6 +39,8 @@ def cases(tier, seed):
                 for seq in seqs:
                     if len(seq) > len(cuts):
                         continue
+                    if len(seq) == 2 and 't2d_s' in seq and set(seq) != {'t2d', 't2d_s'}:
+                        continue          # the small T stiffener is paired with the large one only (both orders)
                     if tier == 'quick' and len(seq) == 2 and (curved or len(cuts) > 2):
                         continue
                     if tier == 'quick' and len(cuts) == 3:
@@ -72,6 +74,8 @@ def mk_panel(t, seed):
     for f in ('u2ty', 'v2ty', 'w2ty', 'w2ry', 'u1ty', 'v1ty', 'w1ty', 'w1ry'):
         setattr(p, f, 1.0)
     p.Nxx, p.Nxy = -1.0e3, 0.2e3
+    if t == 'B':            # a constant pre-load (part of k0) on one panel type, wherever it sits in the assembly
+        p.Nxx_cte, p.Nxy_cte = -4.0, 1.0            # about one third of the critical level of this pattern (stays positive definite)
     p.add_force(0.3, 0.5 * d['b'], 1.0, -2.0, 5.0, cte=True)
     p.add_force(0.45, 0.25 * d['b'], 0.0, 1.0, -3.0, cte=False)
     return p
@@ -103,11 +107,19 @@ def check_assembly(case):
     for i, t in enumerate(seq):
         q = mk_panel(t, seed)          # stand-alone, fresh
         o = int(offs[i])
-        S['k0'] += pan.dense(q.calc_k0(size=size, row0=o, col0=o, silent=True))
-        S['kG0'] += pan.dense(q.calc_kG0(size=size, row0=o, col0=o, silent=True))
-        S['kM'] += pan.dense(q.calc_kM(size=size, row0=o, col0=o, silent=True))
-        fsum += np.asarray(q.calc_fext(inc=0.6, size=size, col0=o, silent=True))
-        execs += 4
+        # evaluated alone with its OWN size at offset 0 and placed at the harness-computed offset by the harness (placement by the
+        # package itself, size/row0/col0, is compared with this as well)
+        n_own = int(sizes[i])
+        for nm, fn in (('k0', q.calc_k0), ('kG0', q.calc_kG0), ('kM', q.calc_kM)):
+            own = pan.dense(fn(silent=True))
+            placed = pan.dense(fn(size=size, row0=o, col0=o, silent=True))
+            S[nm][o:o + n_own, o:o + n_own] += own
+            ref_placed = np.zeros((size, size)); ref_placed[o:o + n_own, o:o + n_own] = own
+            if own.shape != (n_own, n_own) or np.abs(placed - ref_placed).max() > TOL * (np.abs(own).max() + 1e-300):
+                fails.append(fail('%s of a panel placed by the package at an offset inside a larger matrix is not its stand-alone matrix at that offset' % nm,
+                                  sig=None, case=case, panel=i))
+        fsum[o:o + n_own] += np.asarray(q.calc_fext(inc=0.6, silent=True))
+        execs += 7
     for nm in ('k0', 'kG0', 'kM'):
         sc = np.abs(S[nm]).max() + 1e-300
         if np.abs(G[nm] - S[nm]).max() > TOL * sc:
@@ -154,14 +166,16 @@ def mk_bay(curved, cut_idx, stiffs, seed, only=None, forces=False, extra_cuts=Tr
             s = spb.add_bladestiff2d(ys=y, mu=1500., mf=3, nf=3, **fl)
         elif st == 't2d':
             s = spb.add_tstiff2d(ys=y, mu=1500., mf=3, nf=3, mb=2, nb=3, **fl, **bs)
+        elif st == 't2d_s':           # a second T stiffener letter with smaller series orders
+            s = spb.add_tstiff2d(ys=y, mu=1500., mf=2, nf=3, mb=2, nb=2, **fl, **bs)
         # membrane pre-load of the 2D stiffener regions: 'all', 'later' (every stiffener but the first), 'first'
         if stiff_size(st) and (loads == 'all' or (loads == 'later' and k > 0) or (loads == 'first' and k == 0)):
             s.flange.Nxx, s.flange.Nxy = -300. * (k + 1), 40.
-            if st == 't2d':
+            if st.startswith('t2d'):
                 s.base.Nxx = -150. * (k + 1)
         if forces and stiff_size(st):
             s.flange.add_force(0.3 * spb.a, 0.5 * s.flange.b, 0.5 + k, 0., 1.5)
-            if st == 't2d':
+            if st.startswith('t2d'):
                 s.base.add_force(0.7 * spb.a, 0.25 * s.base.b, 0., 1. + k, -2.)
     if forces:
         spb.forces_skin.append([0.37 * spb.a, 0.61 * spb.b, 1.3, -0.7, 2.9])
@@ -171,12 +185,12 @@ def mk_bay(curved, cut_idx, stiffs, seed, only=None, forces=False, extra_cuts=Tr
 
 
 def stiff_size(st):
-    return {'b1d_bf': 0, 'b1d_f': 0, 'b1d_b': 0, 'b2d_bf': 3 * 3 * 4, 'b2d_f': 3 * 3 * 3, 't2d': 3 * 3 * 3 + 3 * 2 * 3}[st]
+    return {'b1d_bf': 0, 'b1d_f': 0, 'b1d_b': 0, 'b2d_bf': 3 * 3 * 4, 'b2d_f': 3 * 3 * 3, 't2d': 3 * 3 * 3 + 3 * 2 * 3, 't2d_s': 3 * 2 * 3 + 3 * 2 * 2}[st]
 
 
 def global_order(stiffs):
     """The documented global ordering: skin, all 2D blade stiffeners (in order of definition), then all T stiffeners."""
-    idx = [k for k, s in enumerate(stiffs) if s.startswith('b2d')] + [k for k, s in enumerate(stiffs) if s == 't2d']
+    idx = [k for k, s in enumerate(stiffs) if s.startswith('b2d')] + [k for k, s in enumerate(stiffs) if s.startswith('t2d')]
     return idx
 
 
